@@ -13,7 +13,9 @@
 //!              k=<dir|missing> (the source path is a directory / does not exist)
 //!   c=<none|gzip:L|zstd:L|xz:L|bzip2:L>  compression(CompressionWithLevel); c=<type>:d  compression(CompressionType::<type>);
 //!     no c= token: no compression() call at all (CompressionWithLevel::default())
-//!   dp=<prov|req|conf|obs|rec|sug|enh|sup>:<name>:<flags>:<version>
+//!   dp=<prov|req|conf|obs|rec|sug|enh|sup>:<name>:<flags>:<version>   dpc=<kind>:<ctor>:<name>:<version> (public constructor by name)
+//!   scs=<kind>:<text> (scriptlet from &str / String)   clt=<name>:<text>:<u32|sys|utc|fix>:<secs>:<nanos>   sdt=<kind>:<secs>:<nanos>
+//!   sgn=bs (build_and_sign) | sgn=b+s (build, then sign); every e= r= d= ve= pk= g= u= vc= ck= bh= c= token is ONE call, in token order
 //!   sc=<prein|postin|preun|postun|pretrans|posttrans|preuntrans|postuntrans|verify>:<script>:<flags|~>:<p1,p2|~|->
 //!   cl=<name>:<text>:<time>
 use crate::common::*;
@@ -49,16 +51,25 @@ pub fn builder_from(tokens: &[&str]) -> Result<rpm::PackageBuilder, rpm::Error> 
     let mut b = rpm::PackageBuilder::new(&req("n"), &req("v"), &req("l"), &req("a"), &req("s"));
     rpm::verif_hooks::set_now(get("now").map(|x| x.parse().unwrap()));
     rpm::verif_hooks::set_large_file_threshold(get("lf").map(|x| x.parse().unwrap()));
-    if let Some(x) = get("e") { b = b.epoch(x.parse().unwrap()); }
-    if let Some(x) = get("r") { b = b.release(hs(x)); }
-    if let Some(x) = get("d") { b = b.description(hs(x)); }
-    if let Some(x) = get("ve") { b = b.vendor(hs(x)); }
-    if let Some(x) = get("pk") { b = b.packager(hs(x)); }
-    if let Some(x) = get("g") { b = b.group(hs(x)); }
-    if let Some(x) = get("u") { b = b.url(hs(x)); }
-    if let Some(x) = get("vc") { b = b.vcs(hs(x)); }
-    if let Some(x) = get("ck") { b = b.cookie(hs(x)); }
-    if let Some(x) = get("bh") { b = b.build_host(hs(x)); }
+    // metadata setters: EVERY occurrence of a token is a call, in token order (a repeated token = a repeated call: the last
+    // one must win; model `Bld.MetaSetter.apply`)
+    for t in tokens {
+        let Some((k, x)) = t.split_once('=') else { continue };
+        b = match k {
+            "e" => b.epoch(x.parse().unwrap()),
+            "r" => b.release(hs(x)),
+            "d" => b.description(hs(x)),
+            "ve" => b.vendor(hs(x)),
+            "pk" => b.packager(hs(x)),
+            "g" => b.group(hs(x)),
+            "u" => b.url(hs(x)),
+            "vc" => b.vcs(hs(x)),
+            "ck" => b.cookie(hs(x)),
+            "bh" => b.build_host(hs(x)),
+            "c" => apply_compression(b, x),
+            _ => b,
+        };
+    }
     // `sdlast`: call source_date() AFTER the files were added (the order used in the crate's own docs)
     let sd_last = tokens.iter().any(|t| *t == "sdlast");
     if !sd_last {
@@ -66,23 +77,7 @@ pub fn builder_from(tokens: &[&str]) -> Result<rpm::PackageBuilder, rpm::Error> 
         // `sdneg=<s>`: a source date s seconds BEFORE 1970 (a date-time no Timestamp can hold): today the setter panics (known
         // finding C17); should it ever be accepted instead, nothing in the package may be later than that date (seed C11-10)
         if let Some(x) = get("sdneg") { b = b.source_date(chrono::DateTime::from_timestamp(-(x.parse::<i64>().unwrap()), 0).unwrap()); }
-    }
-    if let Some(x) = get("c") {
-        let (ty, lvl) = x.split_once(':').unwrap_or((x, "0"));
-        if lvl == "d" {
-            // `compression(CompressionType)`: the level comes from `From<CompressionType> for CompressionWithLevel`
-            b = b.compression(ty.parse::<rpm::CompressionType>().expect("bad compression type"));
-        } else {
-        let c = match ty {
-            "none" => rpm::CompressionWithLevel::None,
-            "gzip" => rpm::CompressionWithLevel::Gzip(lvl.parse().unwrap()),
-            "zstd" => rpm::CompressionWithLevel::Zstd(lvl.parse().unwrap()),
-            "xz" => rpm::CompressionWithLevel::Xz(lvl.parse().unwrap()),
-            "bzip2" => rpm::CompressionWithLevel::Bzip2(lvl.parse().unwrap()),
-            _ => panic!("bad compression"),
-        };
-        b = b.compression(c);
-        }
+        if let Some(x) = get("sdt") { b = apply_typed_source_date(b, x); }
     }
     let dir = scratch_dir();
     let mut fi = 0;
@@ -155,6 +150,15 @@ pub fn builder_from(tokens: &[&str]) -> Result<rpm::PackageBuilder, rpm::Error> 
                 "rec" => b.recommends(d), "sug" => b.suggests(d), "enh" => b.enhances(d), "sup" => b.supplements(d),
                 _ => panic!("bad dep kind"),
             };
+        } else if let Some(r) = t.strip_prefix("dpc=") {
+            // `dpc=<kind>:<ctor>:<name>:<version>`: a dependency made by one of the public `Dependency` constructors
+            let p: Vec<&str> = r.split(':').collect();
+            let d = crate::c06::make_dep(p[1], &hs(p[2]), &hs(p[3])).expect("unknown Dependency constructor");
+            b = match p[0] {
+                "prov" => b.provides(d), "req" => b.requires(d), "conf" => b.conflicts(d), "obs" => b.obsoletes(d),
+                "rec" => b.recommends(d), "sug" => b.suggests(d), "enh" => b.enhances(d), "sup" => b.supplements(d),
+                _ => panic!("bad dep kind"),
+            };
         } else if let Some(r) = t.strip_prefix("sc=") {
             let p: Vec<&str> = r.split(':').collect();
             let mut s = rpm::Scriptlet::new(hs(p[1]));
@@ -167,9 +171,32 @@ pub fn builder_from(tokens: &[&str]) -> Result<rpm::PackageBuilder, rpm::Error> 
                 "preuntrans" => b.pre_untrans_script(s), "postuntrans" => b.post_untrans_script(s), "verify" => b.verify_script(s),
                 _ => panic!("bad script kind"),
             };
+        } else if let Some(r) = t.strip_prefix("scs=") {
+            // `impl<T: Into<String>> From<T> for Scriptlet`: the text itself is handed to the setter (a `String` for even, a `&str`
+            // for odd text lengths)
+            let p: Vec<&str> = r.split(':').collect();
+            let text = hs(p[1]);
+            macro_rules! set { ($m:ident) => { if text.len() % 2 == 0 { b.$m(text.clone()) } else { b.$m(text.as_str()) } } }
+            b = match p[0] {
+                "prein" => set!(pre_install_script), "postin" => set!(post_install_script), "preun" => set!(pre_uninstall_script),
+                "postun" => set!(post_uninstall_script), "pretrans" => set!(pre_trans_script), "posttrans" => set!(post_trans_script),
+                "preuntrans" => set!(pre_untrans_script), "postuntrans" => set!(post_untrans_script), "verify" => set!(verify_script),
+                _ => panic!("bad script kind"),
+            };
         } else if let Some(r) = t.strip_prefix("cl=") {
             let p: Vec<&str> = r.split(':').collect();
             b = b.add_changelog_entry(hs(p[0]), hs(p[1]), p[2].parse::<u32>().unwrap());
+        } else if let Some(r) = t.strip_prefix("clt=") {
+            // `clt=<name>:<text>:<kind>:<secs>:<nanos>`: the time as a u32 / SystemTime / DateTime<Utc> / DateTime<FixedOffset>
+            let p: Vec<&str> = r.split(':').collect();
+            let (name, text, secs, nanos) = (hs(p[0]), hs(p[1]), p[3].parse::<i64>().unwrap(), p[4].parse::<u32>().unwrap());
+            b = match typed_instant(p[2], secs, nanos) {
+                Some(TypedInstant::U32(n)) => b.add_changelog_entry(name, text, n),
+                Some(TypedInstant::Sys(t)) => b.add_changelog_entry(name, text, t),
+                Some(TypedInstant::Utc(t)) => b.add_changelog_entry(name, text, t),
+                Some(TypedInstant::Fix(t)) => b.add_changelog_entry(name, text, t),
+                None => b,
+            };
         }
     }
     if sd_last {
@@ -177,8 +204,65 @@ pub fn builder_from(tokens: &[&str]) -> Result<rpm::PackageBuilder, rpm::Error> 
         // `sdneg=<s>`: a source date s seconds BEFORE 1970 (a date-time no Timestamp can hold): today the setter panics (known
         // finding C17); should it ever be accepted instead, nothing in the package may be later than that date (seed C11-10)
         if let Some(x) = get("sdneg") { b = b.source_date(chrono::DateTime::from_timestamp(-(x.parse::<i64>().unwrap()), 0).unwrap()); }
+        if let Some(x) = get("sdt") { b = apply_typed_source_date(b, x); }
     }
     Ok(b)
+}
+
+/// an instant as one of the argument types the timestamp setters accept
+pub enum TypedInstant {
+    U32(u32),
+    Sys(std::time::SystemTime),
+    Utc(chrono::DateTime<chrono::Utc>),
+    Fix(chrono::DateTime<chrono::FixedOffset>),
+}
+
+/// `None`: the value cannot be constructed as that type (the request is then a no-op, as in the driver)
+pub fn typed_instant(kind: &str, secs: i64, nanos: u32) -> Option<TypedInstant> {
+    use chrono::TimeZone;
+    match kind {
+        "u32" => if nanos == 0 { u32::try_from(secs).ok().map(TypedInstant::U32) } else { None },
+        "sys" => {
+            use std::time::{Duration, UNIX_EPOCH};
+            if secs >= 0 { UNIX_EPOCH.checked_add(Duration::new(secs as u64, nanos)) }
+            else if nanos == 0 { UNIX_EPOCH.checked_sub(Duration::new(secs.unsigned_abs(), 0)) }
+            else { UNIX_EPOCH.checked_sub(Duration::new(secs.unsigned_abs() - 1, 1_000_000_000 - nanos)) }
+        }.map(TypedInstant::Sys),
+        "utc" => chrono::DateTime::from_timestamp(secs, nanos).map(TypedInstant::Utc),
+        "fix" => chrono::DateTime::from_timestamp(secs, nanos)
+            .map(|d| chrono::FixedOffset::east_opt(20700).unwrap().from_utc_datetime(&d.naive_utc())).map(TypedInstant::Fix),
+        _ => None,
+    }
+}
+
+/// `sdt=<kind>:<secs>:<nanos>`
+pub fn apply_typed_source_date(b: rpm::PackageBuilder, x: &str) -> rpm::PackageBuilder {
+    let p: Vec<&str> = x.split(':').collect();
+    match typed_instant(p[0], p[1].parse().unwrap(), p[2].parse().unwrap()) {
+        Some(TypedInstant::U32(n)) => b.source_date(n),
+        Some(TypedInstant::Sys(t)) => b.source_date(t),
+        Some(TypedInstant::Utc(t)) => b.source_date(t),
+        Some(TypedInstant::Fix(t)) => b.source_date(t),
+        None => b,
+    }
+}
+
+/// `c=<none|gzip:L|…>`: `compression(CompressionWithLevel)`; `c=<type>:d`: `compression(CompressionType::<type>)`
+pub fn apply_compression(b: rpm::PackageBuilder, x: &str) -> rpm::PackageBuilder {
+    let (ty, lvl) = x.split_once(':').unwrap_or((x, "0"));
+    if lvl == "d" {
+        // the level comes from `From<CompressionType> for CompressionWithLevel`
+        return b.compression(ty.parse::<rpm::CompressionType>().expect("bad compression type"));
+    }
+    let c = match ty {
+        "none" => rpm::CompressionWithLevel::None,
+        "gzip" => rpm::CompressionWithLevel::Gzip(lvl.parse().unwrap()),
+        "zstd" => rpm::CompressionWithLevel::Zstd(lvl.parse().unwrap()),
+        "xz" => rpm::CompressionWithLevel::Xz(lvl.parse().unwrap()),
+        "bzip2" => rpm::CompressionWithLevel::Bzip2(lvl.parse().unwrap()),
+        _ => panic!("bad compression"),
+    };
+    b.compression(c)
 }
 
 /// the instant `secs + nanos / 10^9` seconds after the epoch (`secs` is the floor, also before 1970) as a file time
@@ -217,6 +301,11 @@ pub fn apply_flag_setter(o: rpm::FileOptionsBuilder, name: &str) -> rpm::FileOpt
         "readme" => o.is_readme(),
         _ => panic!("unknown flag setter {}", name),
     }
+}
+
+/// the codec of the payload: the LAST `c=` token (the last `compression(..)` call wins), else the library's default
+pub fn comp_kind<'a>(tokens: &[&'a str]) -> &'a str {
+    tokens.iter().rev().find_map(|t| t.strip_prefix("c=")).map(|c| c.split(':').next().unwrap()).unwrap_or(default_comp_kind())
 }
 
 /// the codec `CompressionWithLevel::default()` selects in this build of rpm-rs
@@ -272,27 +361,54 @@ pub fn verify_script_dump(m: &rpm::PackageMetadata) -> String {
     format!("verify={},{},{}", script, flags, prog)
 }
 
+/// `build()`, or — `sgn=bs` — `build_and_sign(signer)`, or — `sgn=b+s` — `build()` then `Package::sign(&signer)`
+/// (Ed25519 test key; the main header, the lead and the payload must not depend on which of the three is used)
+pub fn build_pkg(b: rpm::PackageBuilder, tokens: &[&str]) -> Result<rpm::Package, rpm::Error> {
+    let sgn = tokens.iter().find_map(|t| t.strip_prefix("sgn="));
+    let signer = || -> Result<rpm::signature::pgp::Signer, rpm::Error> {
+        let key = std::fs::read("/repo/tests/assets/signing_keys/secret_ed25519.asc")?;
+        rpm::signature::pgp::Signer::load_from_asc_bytes(&key)
+    };
+    match sgn {
+        Some("bs") => b.build_and_sign(signer()?),
+        Some("b+s") => {
+            let mut p = b.build()?;
+            p.sign(&signer()?)?;
+            Ok(p)
+        }
+        _ => b.build(),
+    }
+}
+
+/// the part of the `build` observation in front of ` || `: digests of payload and (independently decompressed) archive, FNV of
+/// lead / signature header (`signed` for a signed package: the signature bytes are not predicted) / main header, re-parse equality
+pub fn observe_head(pkg: &rpm::Package, tokens: &[&str]) -> Result<(String, rpm::Package), rpm::Error> {
+    let mut bytes = Vec::new();
+    pkg.write(&mut bytes)?;
+    let p2 = rpm::Package::parse(&mut &bytes[..])?;
+    let o = p2.metadata.get_package_segment_offsets();
+    let (s, h, pl) = (o.signature_header as usize, o.header as usize, o.payload as usize);
+    let arch = decompress(comp_kind(tokens), &bytes[pl..]);
+    let signed = tokens.iter().any(|t| t.starts_with("sgn="));
+    let head = format!(
+        "ok paysha={} archsha={} lead={:016x} sig={} hdr={:016x} hlen={} same={}",
+        sha256_hex(&bytes[pl..]),
+        arch.as_ref().map(|a| sha256_hex(a)).unwrap_or("undecodable".into()),
+        fnv(&bytes[..s]),
+        if signed { "signed".to_string() } else { format!("{:016x}", fnv(&bytes[s..h])) },
+        fnv(&bytes[h..pl]), pl - h,
+        p2.metadata == pkg.metadata && p2.content == pkg.content,
+    );
+    Ok((head, p2))
+}
+
 /// `build …` observation
 pub fn observe_build(tokens: &[&str]) -> String {
     let r = (|| -> Result<String, rpm::Error> {
         let b = builder_from(tokens)?;
-        let pkg = b.build()?;
-        let mut bytes = Vec::new();
-        pkg.write(&mut bytes)?;
-        let p2 = rpm::Package::parse(&mut &bytes[..])?;
-        let o = p2.metadata.get_package_segment_offsets();
-        let (s, h, pl) = (o.signature_header as usize, o.header as usize, o.payload as usize);
-        let kind = tokens.iter().find_map(|t| t.strip_prefix("c=")).map(|c| c.split(':').next().unwrap()).unwrap_or(default_comp_kind());
-        let arch = decompress(kind, &bytes[pl..]);
-        Ok(format!(
-            "ok paysha={} archsha={} lead={:016x} sig={:016x} hdr={:016x} hlen={} same={} || {} {}",
-            sha256_hex(&bytes[pl..]),
-            arch.as_ref().map(|a| sha256_hex(a)).unwrap_or("undecodable".into()),
-            fnv(&bytes[..s]), fnv(&bytes[s..h]), fnv(&bytes[h..pl]), pl - h,
-            p2.metadata == pkg.metadata && p2.content == pkg.content,
-            crate::c05::dump(&p2.metadata),
-            verify_script_dump(&p2.metadata)
-        ))
+        let pkg = build_pkg(b, tokens)?;
+        let (head, p2) = observe_head(&pkg, tokens)?;
+        Ok(format!("{} || {} {}", head, crate::c05::dump(&p2.metadata), verify_script_dump(&p2.metadata)))
     })();
     cleanup();
     match r { Ok(s) => s, Err(_) => "err".into() }
